@@ -86,10 +86,24 @@ def _directed():
     return out
 
 
+def _nodal_many(tier, seed):
+    """rods with many elements (element boundaries k/nel that are not exactly representable), always two rods of the same
+    polynomial degree but different element counts whose nodes are queried alternately"""
+    rng = np.random.default_rng([int(seed) & 0xFFFFFFFF, 0xC11A])
+    out = []
+    for rep in range({"quick": 2, "thorough": 30}[tier]):
+        for interp, p in (("Quaternion", 1), ("Quaternion", 2), ("SE3", 1), ("R12", 1), ("R12", 2)):
+            nels = rng.choice([5, 6, 7, 9, 10, 11, 12, 14], size=2, replace=False)
+            out.append({"kind": "nodal_many", "interp": interp, "p": p, "mixed": bool(rng.random() < 0.3), "constraints": None,
+                        "nel": int(nels[0]), "nel2": int(nels[1]), "ref": "straight", "reduced": True, "material": "Simo1986",
+                        "prefix": None, "assemble": "plain", "inertia": "full"})
+    return out
+
+
 def cases(tier, seed):
     n = {"quick": 90, "thorough": 2000}[tier]
     specs = rodgen.make_specs(n, seed, salt=11, full_fraction=0.15)
-    out = _directed()
+    out = _directed() + _nodal_many(tier, seed)
     for s in specs:
         s["kind"] = "sweep"
         out.append(s)
@@ -522,15 +536,17 @@ def rod_checks(ctx, R, rng, tally, t, q_rod, u_rod, label):
             ctx.count("orthonormality_not_required_R12")
 
 
-def nodal_checks(ctx, R, rng, t, q_rod, u_rod, label):
+def nodal_checks(ctx, R, rng, t, q_rod, u_rod, label, only=None):
     rod, nn = R.rod, R.nn
     r, P = rodgen.unpack(q_rod, nn)
     v, w = rodgen.unpack_u(u_rod, nn)
     xis = R.node_xis()
     fname = rodgen.formulation_name(R.spec)
     rs = R.L + float(np.max(np.abs(r)))
-    for i in range(nn):
+    for i in (range(nn) if only is None else [only]):
         xi = float(xis[i])
+        if R.spec.get("kind") == "nodal_many" and rng.random() < 0.5:
+            xi = float(np.linspace(0, 1, nn)[i])       # the other natural spelling of a nodal parameter (differs by an ulp at some nodes)
         xi_arg = (xi,) if rng.random() < 0.2 else xi
         # at a node shared by two elements the basis may be requested with either element given explicitly (the surface
         # export and eval_stresses(..., el=...) do so); such a request must not change what the element-free query returns
@@ -670,6 +686,25 @@ def run_case(spec, ctx):
             ctx.count("assemble_with_consistent_initial_conditions_failed")
             ctx.extra("assemble_error_example", {"formulation": rodgen.formulation_name(spec), "nel": spec["nel"],
                                                  "error": R.assemble_error})
+        if kind == "nodal_many":
+            spec2 = {**spec, "nel": spec["nel2"]}
+            R2 = rodgen.guarded(ctx, "rod construction / System.assemble", rodgen.build, spec2, rng)
+            if R2 is None:
+                ctx.sig([spec, "construction failed"], nontrivial=False)
+                return
+            t = float(rng.uniform(0, 2))
+            st = []
+            for RR in (R, R2):
+                q_ = RR.perturbed_state(rng, amp=0.2, qnorm="unit")
+                st.append((RR, q_, RR.random_velocity(rng, 1.0)))
+            for i in range(max(R.nn, R2.nn)):
+                for RR, q_, u_ in (st if i % 2 == 0 else st[::-1]):
+                    if i < RR.nn:
+                        rodgen.guarded(ctx, "rod-level kinematic routines at nodes", nodal_checks, ctx, RR, rng, t, q_, u_, "unit/many-elements", only=i)
+            ctx.cls("nodal:two_rods_alternately")
+            ctx.sig([spec, [float(x) for x in st[0][1][:6]]], nontrivial=True)
+            ctx.sample({"formulation": rodgen.formulation_name(spec), "kind": kind, "nel": [spec["nel"], spec["nel2"]]})
+            return
         states, tiny = _states(R, spec, rng)
         tally = Tally()
         t = float(rng.uniform(0, 2))
